@@ -60,7 +60,9 @@ def emptyish (tok : String) : Bool :=
 
 /-- the setting the case asked for is what the configuration holds -/
 def kept (i : Input) (o : Output) : Bool :=
-  if o.eff != "-" then o.eff == i.want
+  if o.eff != "-" then
+    -- held by the configuration, and what is saved for the key is that value (or the key is omitted)
+    o.eff == i.want && (o.got == i.want || o.got == "absent" || o.got == "nil" || o.got == "-")
   else o.got == i.want || ((o.got == "absent" || o.got == "nil") && emptyish i.want)
 
 /-- "no well-formed setting is silently dropped or replaced by its default (a numeric or duration zero
